@@ -488,8 +488,15 @@ pub fn gen_submit_spec(
             });
         }
         if invalid {
-            match rng.below(4) {
+            match rng.below(5) {
                 0 if !existing.is_empty() => tasks[0].id = *rng.pick(&existing),
+                4 if tasks.len() >= 2 => {
+                    // dependency on a task that is listed LATER in the same submit (the task list
+                    // of a graph submit has to be topologically ordered; such a submit is refused)
+                    let k = rng.usize_below(tasks.len() - 1);
+                    let later = tasks[k + 1 + rng.usize_below(tasks.len() - 1 - k)].id;
+                    tasks[k].deps.push(later);
+                }
                 1 => {
                     let k = rng.usize_below(tasks.len());
                     let id = tasks[k].id;
